@@ -33,7 +33,7 @@ check('C28', title='Loggers write every accepted line exactly once, in order',
       level='model_checking', engine='sched',
       technique='preemption-bounded exhaustive exploration of thread schedules of the real Logger (producers, logger thread, stop) under a cooperative scheduler; oracle on every complete execution',
       design_ref='DESIGN.md §3 C28, §2.3',
-      text='k producer threads each submit lines (Info/Error enabled, one Debug line disabled) to a real Logger whose stream is a string stream; the main thread calls stop() after joining the producers and, '
+      text='k producer threads each submit lines (Info/Error enabled, one Debug line disabled) to a real Logger whose stream is a buffered stream in front of a device string (as a file stream: written = reached the device); the main thread calls stop() after joining the producers and, '
            'in a second configuration, while they still run. Every schedule with at most b preemptions is executed (and the ASan build repeats bound 1). Checked per execution: every line whose send returned '
            'before stop() was called appears exactly once when stop() returns; no line twice; per-producer order; sequence numbers 1,2,3.. in stream order; no Debug line; send returns true for accepted lines; '
            'the stream does not change after stop() returned; no deadlock, livelock, crash or sanitizer report.',
